@@ -6,7 +6,8 @@ use crate::genr::choices::Choices;
 use crate::genr::inputs::gen_input;
 use crate::genr::yrender::YKind;
 use crate::harness::{Layout, parse_digest, table_loop_witness_raw};
-use crate::props::c10::{gen_case, yacc_kind};
+use crate::genr::grammar::AG;
+use crate::props::c10::{gen_case, gen_case_with, yacc_kind};
 use cfgrammar::yacc::YaccGrammar;
 use lrlex::{DefaultLexerTypes, LRNonStreamingLexerDef, LexerDef};
 use lrtable::{Minimiser, from_yacc};
@@ -86,6 +87,97 @@ pub fn size_case(family: &str, n: usize) -> Case {
         text,
         inputs,
     }
+}
+
+/// Inflate one or two size dimensions of an ordinary generated grammar (any kind, with whatever
+/// the kind adds on its own: Eco's implicit-token references, the start rule, the end token) to
+/// the neighbourhood of 255.
+pub fn inflate(ch: &mut Choices, ag: &mut AG, kind: YKind) {
+    use crate::genr::grammar::{AgProd, AgRule, Sym};
+    let implicit = kind == YKind::Eco && !ag.implicit_tokens.is_empty();
+    let nops = ch.range(1, 2);
+    for _ in 0..nops {
+        match ch.pick(5) {
+            0 | 1 => {
+                // long productions: effective length (with Eco's implicit references: 2 per
+                // token) aimed at 250..=260; optionally a second one that is longer in the source
+                // but shorter once stored
+                let e = ch.range(249, 261);
+                let per_tok = if implicit { 2 } else { 1 };
+                let t = ch.pick(e / per_tok + 1);
+                let r = e - per_tok * t;
+                let nt = ag.tokens.len().max(1);
+                let nr = ag.rules.len();
+                let tok = ch.pick(nt);
+                let rule = ch.pick(nr);
+                let mut syms: Vec<Sym> = vec![];
+                let tokens_first = ch.chance(1, 2);
+                if tokens_first {
+                    syms.extend((0..t).map(|_| Sym::T(tok)));
+                    syms.extend((0..r).map(|_| Sym::R(rule)));
+                } else {
+                    syms.extend((0..r).map(|_| Sym::R(rule)));
+                    syms.extend((0..t).map(|_| Sym::T(tok)));
+                }
+                let host = ch.pick(nr);
+                let proto = ag.rules[host].prods.first().cloned();
+                let mk = |syms: Vec<Sym>| AgProd {
+                    syms,
+                    prec: None,
+                    action: proto.as_ref().and_then(|p| p.action.clone()),
+                };
+                ag.rules[host].prods.push(mk(syms));
+                if ch.chance(1, 2) && t + r < 250 {
+                    let l2 = ch.range(t + r + 1, 254);
+                    let host2 = ch.pick(nr);
+                    let at = ch.pick(ag.rules[host2].prods.len() + 1);
+                    ag.rules[host2].prods.insert(at, mk((0..l2).map(|_| Sym::R(rule)).collect()));
+                }
+            }
+            2 => {
+                // many rules (unreachable, one short production each)
+                let target = ch.range(246, 259);
+                let proto = ag.rules[0].clone();
+                let mut i = 0;
+                while ag.rules.len() < target {
+                    let mut r: AgRule = proto.clone();
+                    r.name = format!("Zz{i}");
+                    r.prods.truncate(1);
+                    if let Some(p) = r.prods.first_mut() {
+                        p.syms.truncate(1);
+                        p.prec = None;
+                    }
+                    ag.rules.push(r);
+                    i += 1;
+                }
+            }
+            3 => {
+                // many productions
+                let target = ch.range(246, 259);
+                let host = ch.pick(ag.rules.len());
+                let proto = ag.rules[host].prods.first().cloned();
+                let nt = ag.tokens.len().max(1);
+                while ag.nprods() < target {
+                    let k = ag.nprods();
+                    ag.rules[host].prods.push(AgProd {
+                        syms: vec![Sym::T(k % nt), Sym::T((k / nt) % nt), Sym::T((k / nt / nt) % nt)],
+                        prec: None,
+                        action: proto.as_ref().and_then(|p| p.action.clone()),
+                    });
+                }
+            }
+            _ => {
+                // many tokens (declared, unused)
+                let target = ch.range(246, 259);
+                let mut i = 0;
+                while ag.tokens.len() < target {
+                    ag.tokens.push(format!("zt{i}"));
+                    i += 1;
+                }
+            }
+        }
+    }
+    ag.stratum.push_str("+inflated");
 }
 
 /// Is this panic one of the documented clean refusals?
@@ -213,7 +305,8 @@ impl Prop for C20 {
             let n = 240 + ch.pick(30);
             return serde_json::to_value(size_case(fam, n)).unwrap();
         }
-        let c = gen_case(&mut ch, tier);
+        let inflated = ch.chance(1, 5);
+        let c = if inflated { gen_case_with(&mut ch, tier, Some(inflate)) } else { gen_case(&mut ch, tier) };
         let mut inputs = vec![];
         for _ in 0..4 {
             let inp = gen_input(&mut ch, &c.ag, 8, &[3, 3, 1]);
@@ -221,7 +314,7 @@ impl Prop for C20 {
         }
         let text = if c.entry == 1 { c.text[crate::props::c10::header_for(c.kind).len()..].to_string() } else { c.text };
         serde_json::to_value(Case {
-            family: "small".into(),
+            family: if inflated { "inflated".into() } else { "small".into() },
             n: 0,
             kind: c.kind,
             text,
@@ -246,7 +339,7 @@ impl Prop for C20 {
         v
     }
     fn rule(&self) -> String {
-        "Size-boundary families (number of rules, tokens, productions, symbols in one production, LR states, lexer rules) at 250..260 (and random 240..269) for u8 and at 65534..65536 (thorough: 65532..65538, four families) for u16, plus ordinary small grammars as C10; each built with u8, u16 and u32. Oracle: per width the construction completes or panics; a panic is a clean refusal iff its message mentions StorageT or it is one of the explicit size assertions of StateGraph::new/StateTable::new; every completing width reports sizes equal to the number of indices its iterators yield and equal to the u32 build's sizes, has the same digest of every grammar/graph/table query and the same parse results; if a width completes every wider width completes. Evaluation = one (grammar, width). Non-trivial: some count lies within 3 of 255 or 65535; distinct by hash(family,n) / hash(text).".into()
+        "Size-boundary families (number of rules, tokens, productions, symbols in one production, LR states, lexer rules) at 250..260 (and random 240..269) for u8 and at 65534..65536 (thorough: 65532..65538, four families) for u16, plus ordinary small grammars as C10 and (1/5) 'inflated' ones: a C10 grammar of any kind (Eco with implicit tokens included) with one or two dimensions blown up to 246..261 - a production whose stored length (tokens count twice with implicit tokens) is 249..261, optionally with a second production longer in the source but shorter when stored, or many rules / productions / tokens; each built with u8, u16 and u32. Oracle: per width the construction completes or panics; a panic is a clean refusal iff its message mentions StorageT or it is one of the explicit size assertions of StateGraph::new/StateTable::new; every completing width reports sizes equal to the number of indices its iterators yield and equal to the u32 build's sizes, has the same digest of every grammar/graph/table query (first up to the canonical breadth-first renaming of states, for a precise signature, then with the implementation's own state numbers) and the same parse results; if a width completes every wider width completes. Evaluation = one (grammar, width). Non-trivial: some count lies within 3 of 255 or 65535, or the grammar is an inflated one; distinct by hash(family,n) / hash(text).".into()
     }
     fn assumptions(&self) -> Vec<String> {
         vec![
@@ -255,7 +348,7 @@ impl Prop for C20 {
         ]
     }
     fn required_classes(&self, _tier: Tier) -> Vec<&'static str> {
-        vec!["u8:refused", "u8:ok", "u16:refused", "u16:ok", "u32:ok", "family:small", "family:tokens", "family:states", "family:lexrules"]
+        vec!["u8:refused", "u8:ok", "u16:refused", "u16:ok", "u32:ok", "family:small", "family:inflated", "family:tokens", "family:states", "family:lexrules"]
     }
     fn evaluate(&self, case: &Value) -> Outcome {
         let case: Case = serde_json::from_value(case.clone()).unwrap();
@@ -359,10 +452,10 @@ impl Prop for C20 {
                         return o;
                     }
                     if wr.raw != rf.raw && wr.raw.is_some() && rf.raw.is_some() {
-                        // isomorphic automata with different state numbers (the item hash maps
-                        // iterate differently for different index types): "table contents" is
-                        // compared up to this renaming; counted for information
-                        o.class("note:state-numbering-differs-across-widths");
+                        // isomorphic automata with different state numbers: "the same numbering"
+                        let d = rf.raw.as_deref().unwrap_or("").lines().zip(wr.raw.as_deref().unwrap_or("").lines()).find(|(a, b)| a != b).map(|(a, b)| format!("u32: {a}\n{w}: {b}"));
+                        o.fail("wrong", format!("C20/{w}/state-numbering-differs"), format!("family {} n {}: same automaton up to renaming, but the state numbers differ; first differing line:\n{:?}\n{}", case.family, case.n, d, case.text.chars().take(400).collect::<String>()));
+                        return o;
                     }
                     let parses_differ = wr.parses.len() != rf.parses.len()
                         || wr.parses.iter().zip(rf.parses.iter()).any(|(a, b)| a != b && a != "cap-hit" && b != "cap-hit");
@@ -389,8 +482,8 @@ impl Prop for C20 {
                         return o;
                     }
                 }
-                if near(rules) || near(tokens) || near(prods) || near(states) {
-                    o.nontrivial.push(hash64(&format!("{}{}{}", case.family, case.n, if case.family == "small" { &case.text } else { "" })));
+                if near(rules) || near(tokens) || near(prods) || near(states) || case.family == "inflated" {
+                    o.nontrivial.push(hash64(&format!("{}{}{}", case.family, case.n, if case.n == 0 { &case.text } else { "" })));
                     o.sample = Some(serde_json::json!({"family": case.family, "n": case.n, "counts(rules,tokens,prods,states)": [rules, tokens, prods, states]}));
                 }
             }
